@@ -239,10 +239,11 @@ class Analyzer(Interp):
                 rel = set(za.syms()) | set(zb.syms())
                 for c_ in _cone(a.cons.cs, za.syms()) + _cone(b.cons.cs, zb.syms()):
                     rel |= c_.syms()
-                for k2 in others:
-                    if k2 == k:
-                        continue
-                    wa, wb, w = a.env[k2], b.env[k2], s.env[k2]
+                triples = [(a.env[k2], b.env[k2], s.env[k2]) for k2 in others if k2 != k]
+                # container lengths take part in the orderings too (offset <= size survives a merge)
+                triples += [(a.lens[b_], b.lens[b_], s.lens[b_]) for b_ in s.lens
+                            if isinstance(a.lens.get(b_), Lin) and isinstance(b.lens.get(b_), Lin) and isinstance(s.lens[b_], Lin) and not s.lens[b_].is_const()]
+                for wa, wb, w in triples:
                     if wa.is_const() and wb.is_const() or not ((wa.syms() | wb.syms()) & rel):
                         continue
                     if a.cons.entails_le(za - wa) and b.cons.entails_le(zb - wb):
@@ -615,7 +616,7 @@ class Analyzer(Interp):
         for _round in range(10):
             free = [key for key in changed if key not in strides and self._num(h0.env.get(key)) is not None]
             if cands is None or any(c['keys'] - set(free) for c in cands):
-                cands = self.loop_candidates(h0, free, probe_ends)
+                cands = self.loop_candidates(h0, free, probe_ends, fn, n, fr)
             head = h0.copy()
             K = self.fresh(head, 'K', None, lo=0)
             for key in changed:
@@ -642,7 +643,7 @@ class Analyzer(Interp):
             for b_ in len_changed:
                 head.lens[b_] = self.fresh_len(head)
             for c in cands:
-                vals = c['f'](lambda key_: self._num(head.env.get(key_)))
+                vals = c['f'](lambda key_: self._num(head.env.get(key_)), head)
                 if vals is None:
                     c['dead'] = True
                     continue
@@ -663,7 +664,7 @@ class Analyzer(Interp):
             for c in cands:
                 ok = True
                 for e in ends:
-                    vals = c['f'](lambda key_: self._num(e.env.get(key_)))
+                    vals = c['f'](lambda key_: self._num(e.env.get(key_)), e)
                     if vals is None or not all(e.cons.entails_le(x) for x in vals):
                         ok = False
                         break
@@ -696,7 +697,7 @@ class Analyzer(Interp):
                 out.add(b)
         return out
 
-    def loop_candidates(self, h0, free, probe_ends):
+    def loop_candidates(self, h0, free, probe_ends, fn=None, n=None, fr=None):
         """Candidate loop invariants relating the loop-entry values (Lin over entry symbols) of the freely changing keys to
         their values at a later head: constant bounds, monotonicity, conserved sums and differences of pairs.
         Pre-filtered on the probe iteration; inductiveness is checked by the caller."""
@@ -710,22 +711,49 @@ class Analyzer(Interp):
             cb = self.const_bounds(h0, v0)
             if cb:
                 cands.append({'name': '%d <= %s <= %d' % (cb[0], name(key), cb[1]), 'keys': {key},
-                              'f': (lambda get, key=key, cb=cb: None if get(key) is None else [Lin.const(cb[0]) - get(key), get(key) - cb[1]])})
+                              'f': (lambda get, st_=None, key=key, cb=cb: None if get(key) is None else [Lin.const(cb[0]) - get(key), get(key) - cb[1]])})
             cands.append({'name': '%s non-decreasing' % name(key), 'keys': {key},
-                          'f': (lambda get, key=key, v0=v0: None if get(key) is None else [v0 - get(key)])})
+                          'f': (lambda get, st_=None, key=key, v0=v0: None if get(key) is None else [v0 - get(key)])})
             cands.append({'name': '%s non-increasing' % name(key), 'keys': {key},
-                          'f': (lambda get, key=key, v0=v0: None if get(key) is None else [get(key) - v0])})
+                          'f': (lambda get, st_=None, key=key, v0=v0: None if get(key) is None else [get(key) - v0])})
         for key in free:
             for b_, ln_ in h0.lens.items():
                 if isinstance(ln_, Lin) and not ln_.is_const() and b_ in self._live_bufs(h0):
                     cands.append({'name': '%s <= len(%s)' % (name(key), b_), 'keys': {key},
-                                  'f': (lambda get, key=key, ln_=ln_: None if get(key) is None else [get(key) - ln_])})
+                                  'f': (lambda get, st_=None, key=key, ln_=ln_: None if get(key) is None else [get(key) - ln_])})
+        # the loop condition itself, weakened to its non-strict form: `a < b` gives the candidate a <= b (so that on exit a == b
+        # when the stride is one, and the counter never overshoots its bound)
+        if fn is not None and fn.nodes[n].get('cond') is not None and fn.nodes[n]['cond'] >= 0:
+            from .match import comparison
+            stack = [fn.nodes[n]['cond']]
+            conj = []
+            while stack:
+                x = fn.strip(stack.pop(), casts=False)
+                if fn.nodes[x]['k'] == 'BinaryOperator' and fn.nodes[x].get('op') == '&&':
+                    stack += fn.kids(x)
+                else:
+                    conj.append(x)
+            for cj in conj:
+                cmpn = comparison(fn, cj)
+                if cmpn is None or cmpn[0] not in ('<', '<=', '>', '>='):
+                    continue
+                op, a_, b_ = cmpn
+
+                def fc(get, st_, a_=a_, b_=b_, op=op):
+                    res = self.silent(lambda: self.evs(fn, [a_, b_], st_.copy(), fr), fr)
+                    if len(res) != 1:
+                        return None
+                    va, vb = (self._num(x) for x in res[0][1])
+                    if va is None or vb is None:
+                        return None
+                    return [va - vb] if op in ('<', '<=') else [vb - va]
+                cands.append({'name': 'condition `%s` non-strictly' % fn.text(cj)[:40], 'keys': set(), 'f': fc})
         for i, k1 in enumerate(free):
             for k2 in free[i + 1:]:
                 for sign, nm in ((1, '+'), (-1, '-')):
                     tot = entry[k1] + entry[k2].scale(sign)
 
-                    def f(get, k1=k1, k2=k2, sign=sign, tot=tot):
+                    def f(get, st_=None, k1=k1, k2=k2, sign=sign, tot=tot):
                         a, b = get(k1), get(k2)
                         if a is None or b is None:
                             return None
@@ -734,9 +762,13 @@ class Analyzer(Interp):
                     cands.append({'name': '%s %s %s conserved' % (name(k1), nm, name(k2)), 'keys': {k1, k2}, 'f': f})
         keep = []
         for c in cands:
+            # base case: the candidate must hold on entry to the loop
+            v0s = c['f'](lambda key_: self._num(h0.env.get(key_)), h0)
+            if v0s is None or not all(h0.cons.entails_le(x) for x in v0s):
+                continue
             ok = True
             for e in probe_ends:
-                vals = c['f'](lambda key_: self._num(e.env.get(key_)))
+                vals = c['f'](lambda key_: self._num(e.env.get(key_)), e)
                 if vals is None or not all(e.cons.entails_le(x) for x in vals):
                     ok = False
                     break
